@@ -4,6 +4,7 @@ import (
 	"context"
 	"fmt"
 	"github.com/shpandrak/shpanstream"
+	"github.com/shpandrak/shpanstream/internal/util"
 	"io"
 )
 
@@ -21,12 +22,19 @@ func Buffered[T any](s Stream[T], size int) Stream[T] {
 	// Result will either be T or an upstream error
 	bufferChan := make(chan shpanstream.Result[T], size-1)
 
-	return MapWithErr(
-		// Create a new stream with the buffer channel as the source
-		FromChannel(bufferChan),
+	// Create a new stream with the buffer channel as the source
+	bufferChanStream := FromChannel(bufferChan)
 
-		// Unpack the result from the buffer channel to the original type or error
-		shpanstream.UnpackResult[T],
+	return newStream[T](
+		func(ctx context.Context) (T, error) {
+			r, err := bufferChanStream.provider(ctx)
+			if err != nil {
+				return util.DefaultValue[T](), err
+			}
+			// Unpack the result from the buffer channel to the original type, upstream error or the EOF marker
+			return r.Unpack()
+		},
+		bufferChanStream.allLifecycleElement,
 	).
 		// Attach handler to the Open func of the stream lifecycle to trigger the buffering goroutine
 		WithAdditionalLifecycle(NewLifecycle(
